@@ -265,6 +265,109 @@ def run_sizes(task):
     return res
 
 
+# ------------------------------------------------------- a stack that is too small inside a worker process
+def mp_stack_case(n, height, k, op):
+    """MultiprocessingSolver on a model split into k sub-problems of which only the first needs a deep stack:
+        s in [0,k-1] (split variable), b_1..b_n in [0,1], cost in [0, n+25]
+        sum b_i + n*s <= n          (s = 1 forces every b_i to 0 by propagation, s >= 2 is infeasible)
+        cost - sum b_i - 10*s = 1
+    The worker of s = 0 needs n nested choice points, the others none. Solutions: 2^n (s = 0) + 1 (s = 1); min cost 1 and
+    max cost max(n+1, 11). With a stack below n levels that worker fails; the call as a whole must raise / refuse or still be
+    right - answering from the surviving workers alone (missing solutions, a non-optimal optimum, None) is a silent wrong
+    answer."""
+    from framework.planes import mpreal
+    from nucs.problems.problem import Problem
+    from nucs.propagators import propagators as PP
+    from nucs.solvers.backtrack_solver import BacktrackSolver
+    from nucs.solvers.multiprocessing_solver import MultiprocessingSolver
+
+    rec = {"n": n, "height": height, "k": k, "op": op}
+    S, B, COST = 0, list(range(1, n + 1)), n + 1
+
+    def valid(t):
+        return (0 <= t[S] < k and all(t[i] in (0, 1) for i in B) and sum(t[i] for i in B) + n * t[S] <= n
+                and t[COST] - sum(t[i] for i in B) - 10 * t[S] == 1)
+
+    try:
+        p = Problem([(0, k - 1)] + [(0, 1)] * n + [(0, n + 25)])
+        p.add_propagator((B + [S], PP.ALG_AFFINE_LEQ, [1] * n + [n, n]))
+        p.add_propagator(([COST] + B + [S], PP.ALG_AFFINE_EQ, [1] + [-1] * n + [-10, 1]))
+        parts = p.split(k, S)
+        ms = MultiprocessingSolver([BacktrackSolver(q, stack_max_height=height, log_level="ERROR") for q in parts],
+                                   log_level="ERROR")
+    except Exception as e:
+        rec["outcome"] = "error"
+        rec["detail"] = "refused at construction: %s: %s" % (type(e).__name__, str(e)[:120])
+        return rec
+
+    def call():
+        if op == "solve":
+            return [tuple(int(x) for x in t) for t in ms.solve()]
+        r = ms.minimize(COST) if op == "minimize" else ms.maximize(COST)
+        return None if r is None else tuple(int(x) for x in r)
+
+    box = mpreal.call_with_oracle(call, wall_cap=120)
+    rec["how"] = box["how"]
+    if box["how"] == "raised":
+        rec["outcome"] = "error"
+        rec["detail"] = box["exc"]
+    elif box["how"] == "returned":
+        got = box["value"]
+        if op == "solve":
+            ok = len(got) == 2 ** n + 1 and len(set(got)) == len(got) and all(valid(t) for t in got)
+            if not ok:
+                rec["detail"] = "%d solutions delivered (%d distinct, %d valid), %d exist" % (
+                    len(got), len(set(got)), sum(1 for t in got if valid(t)), 2 ** n + 1)
+        else:
+            want = 1 if op == "minimize" else max(n + 1, 11)
+            ok = got is not None and valid(got) and got[COST] == want
+            if not ok:
+                rec["detail"] = "returned %r, the optimum is cost %d" % (got, want)
+        rec["outcome"] = "correct" if ok else "wrong"
+    elif box["how"] in ("deadlock", "blocked_after_death"):
+        rec["outcome"] = "hang"
+        rec["detail"] = box.get("detail", "")
+    else:
+        rec["outcome"] = "undecided"
+        rec["detail"] = "wall-clock cap"
+    return rec
+
+
+def judge_mp_stack(rec):
+    n, h, o = rec["n"], rec["height"], rec["outcome"]
+    if o == "wrong":
+        return "silent_wrong_answer_from_surviving_workers"
+    if o == "hang":
+        return "hang_instead_of_error"
+    if n < h - 1 and o == "error":
+        return "in_capacity_search_refused"
+    return None
+
+
+def run_mp_stack(task):
+    t0 = time.time()
+    res = {"evals": 0, "fails": [], "fail_counts": {}, "hashes": [], "samples": [], "counters": {}, "mode": MODE}
+    for n, h, k, op in task["cases"]:
+        progress.mark({"mp_stack_case": [n, h, k, op]})
+        rec = mp_stack_case(n, h, k, op)
+        res["evals"] += 1
+        res["hashes"].append("mp/%d/%d/%d/%s" % (n, h, k, op))
+        zone = "inside" if n < h - 1 else ("band" if n <= h else "beyond")
+        key = "mp_stack.%s.%s" % (zone, rec["outcome"])
+        res["counters"][key] = res["counters"].get(key, 0) + 1
+        if len(res["samples"]) < 2 and zone == "beyond":
+            res["samples"].append(rec)
+        bad = judge_mp_stack(rec)
+        if bad:
+            c = res["fail_counts"].get(bad, 0)
+            res["fail_counts"][bad] = c + 1
+            if c < 4:
+                res["fails"].append({"prop": "C19", "kind": bad, "detail": rec.get("detail", ""), "mp_stack_case": rec,
+                                     "mode": MODE})
+    res["wall"] = time.time() - t0
+    return res
+
+
 def replay_capacity(task):
     w = task["witness"]
     fails = []
@@ -272,6 +375,12 @@ def replay_capacity(task):
         c = w["stack_case"]
         rec = stack_case(c["height"], c["depth"], c["heuristic"], c["calg"])
         bad = judge_stack(rec)
+        if bad:
+            fails.append({"kind": bad, "detail": rec.get("detail", "")})
+    elif "mp_stack_case" in w:
+        c = w["mp_stack_case"]
+        rec = mp_stack_case(c["n"], c["height"], c["k"], c["op"])
+        bad = judge_mp_stack(rec)
         if bad:
             fails.append({"kind": bad, "detail": rec.get("detail", "")})
     elif "size_case" in w:
